@@ -13,6 +13,7 @@ import re
 from typing import Any, Dict, List, Optional, Tuple
 
 from mc import netstack, simctl, world
+from mc.report import guard_harness as _guard
 from mc.report import add_sample, add_violation, count, new_part
 
 LEVEL = "model_checking"
@@ -192,6 +193,7 @@ def build(budget: int, config: str, history: List[Tuple]):
         except simctl.Horizon as exc:
             return w, (i, "does-not-terminate", str(exc))
         except Exception as exc:
+            _guard(exc)
             return w, (i, classify(exc), f"{type(exc).__name__}: {str(exc).splitlines()[0][:200] if str(exc) else ''}")
     return w, None
 
@@ -349,6 +351,7 @@ def shard_coexist(shard):
         except (simctl.Blocked, simctl.Horizon) as exc:
             add_violation(part, "coexisting-connections/blocks", f"{config}: {type(exc).__name__}: {exc}", case)
         except Exception as exc:
+            _guard(exc)
             add_violation(part, f"coexisting-connections/{classify(exc)}", f"{config}: {type(exc).__name__}: "
                           f"{str(exc).splitlines()[0][:160] if str(exc) else ''}", case)
     return part
